@@ -24,7 +24,11 @@ def prune_profile(F, ty):
                 names.add('illegal-step')
             if c.is_('SequentialSpec::invoke'):
                 names.add('apply-in-flight')
-            if c.is_('BTreeMap::contains_key'):
+            if c.is_('BTreeMap::contains_key') or (c.is_('BTreeMap::get') and x.branch(c, 'None') and
+                                                   x.branch(c, 'Some') and x is b and
+                                                   any(i_.bb in x.reach([e[1] for e in x.branch(c, 'Some')])
+                                                       for i_ in x.calls_to('SequentialSpec::invoke'))):
+                # the thread has an operation in flight (asked with contains_key, or by looking it up)
                 names.add('needs-in-flight')
             if c.is_('Iterator::any'):
                 names.add('real-time')
